@@ -111,6 +111,7 @@ class Engine:
         self.mem_writes = []
         self.links = set()     # pairs of symbols that were compared / derived from one another (relevance only)
         self.thread_entries = {}
+        self.thread_pre = {}
         self.frame_bodies = {}
         self.body_consts = self._collect_body_consts()
         lin.NAMER[0] = self.sym_name
@@ -966,6 +967,7 @@ class Engine:
                                 q = lin.sub(e_env, lin.const(c)) if sign == 1 else lin.sub(lin.const(c), e_env)
                                 st.ctx.add(q)
                                 pre.append(lin.show(q) + " <= 0")
+                                self.thread_pre.setdefault(fid, []).append(q)
                                 break
                 if self.record:
                     self.thread_entries[clos_def] = {
@@ -1378,6 +1380,9 @@ class Engine:
     # candidates: ('le', placeA|None, placeB|None, k)  meaning  A - B <= k  (None = 0)
     def gen_candidates(self, st_in, fr, M, reads, bodies_seen, backs=()):
         ks = set([0, 1])
+        for cp, cv in self.prog.consts.items():
+            if cv.get("val") is not None and abs(int(cv["val"])) < (1 << 40):
+                ks.add(int(cv["val"]))
         for bp in bodies_seen:
             ks |= self.body_consts.get(bp, set())
         consts = set()
